@@ -243,11 +243,13 @@ def run(ctx: Ctx) -> RuleResult:
     res.ob('%s %s' % (cuf.loc(), cuf.qual), 'keyword exception applies only between terminals of equal priority', ok)
     if not ok:
         res.finding(cuf, cuf.node, 'the keyword/identifier exception is no longer restricted to equal priorities', construct='unless-priority')
-    full = [n for n in cuf.body_nodes() if isinstance(n, ast.If) and isinstance(n.test, ast.Compare) and isinstance(n.test.ops[0], ast.Eq)
-            and any(isinstance(x, ast.Call) and norm(x.func) == '_get_match' for x in ast.walk(n.test))]
+    # (the comparison may be one conjunct of a merged test)
+    full = [c_ for n in cuf.body_nodes() if isinstance(n, ast.If) for c_ in ast.walk(n.test)
+            if isinstance(c_, ast.Compare) and len(c_.ops) == 1 and isinstance(c_.ops[0], ast.Eq)
+            and any(isinstance(x, ast.Call) and norm(x.func) == '_get_match' for x in (c_.left, c_.comparators[0]))]
     ok = len(full) == 1
     if ok:
-        t = full[0].test
+        t = full[0]
         other = t.left if not isinstance(t.left, ast.Call) else t.comparators[0]
         call = t.comparators[0] if isinstance(t.comparators[0], ast.Call) else t.left
         ok = norm(other) == norm(call.args[2]) and 'to_regexp()' in norm(call.args[1])
@@ -301,6 +303,21 @@ def run(ctx: Ctx) -> RuleResult:
     # (the same without the temporary)
     ok = ok or any(isinstance(n, ast.If) and has_pat([n.test], '$ty not in $me.ignore_types')
                    and any(isinstance(s, ast.Return) for s in n.body) for n in nt.body_nodes())
+    # (or as a guard clause: every `return <token>` of the loop runs only when the type is not an ignored one)
+    if not ok:
+        from ..exprs import path_conditions
+        rets_ = [r_ for r_ in nt.body_nodes() if isinstance(r_, ast.Return) and r_.value is not None and any(isinstance(a_, ast.While) for a_ in ancestors(r_))]
+        def _not_ignored(r_):
+            for t_, pol_ in path_conditions(r_):
+                parts_ = list(t_.values) if isinstance(t_, ast.BoolOp) and ((pol_ and isinstance(t_.op, ast.And)) or (not pol_ and isinstance(t_.op, ast.Or))) else [t_]
+                for q_ in parts_:
+                    tx = norm(q_)
+                    if 'ignore_types' in tx or (ig_ and tx in (ig_[0][1]['ig'], 'not ' + ig_[0][1]['ig'])):
+                        neg = tx.startswith('not ') or ' not in ' in tx
+                        if neg == pol_:
+                            return True
+            return False
+        ok = bool(rets_) and all(_not_ignored(r_) for r_ in rets_)
     res.ob('%s %s' % (nt.loc(), nt.qual), 'ignored terminals are consumed but not returned', ok)
     if not ok:
         res.finding(nt, nt.node, 'the handling of ignored terminals in next_token changed', construct='ignored')
@@ -320,7 +337,7 @@ def run(ctx: Ctx) -> RuleResult:
         res.finding(ci, ci.node, 'the contextual lexer does not build its per-state and root lexers from one BasicLexer class', construct='ctx-class')
     cparam, aparam = (ci.positional_names() + ['conf', 'states', 'always_accept'])[0], (ci.positional_names() + ['conf', 'states', 'always_accept'])[2]
     acc_ = find_pat(ci.body_nodes(), '$a = set($a) | set($c.ignore) | set($aa)', {'c': cparam, 'aa': aparam})
-    ok = bool(acc_) and has_pat(ci.body_nodes(), '$lc.terminals = [$by[$n] for $n in $a if $n in $by]', {'a': acc_[0][1]['a']})
+    ok = bool(acc_) and has_pat(ci.body_nodes(), '$lc.terminals = [$$by[$n] for $n in $a if $n in $$by]', {'a': acc_[0][1]['a']})
     res.ob('%s %s' % (ci.loc(), ci.qual), 'a state\'s lexer knows the terminals the parser accepts there plus ignored and always-accepted ones', ok)
     if not ok:
         res.finding(ci, ci.node, 'the terminal set of a per-state lexer is no longer accepts | ignore | always_accept', construct='ctx-accepts')
